@@ -22,6 +22,7 @@ import (
 	"github.com/goccmack/gocc/internal/ast"
 	"github.com/goccmack/gocc/internal/lexer/symbols"
 	"github.com/goccmack/gocc/internal/util"
+	"github.com/goccmack/gocc/internal/verifhook"
 )
 
 type Item struct {
@@ -109,6 +110,7 @@ For a general description of dotted items (items) and ℇ-moves of items, see:
 func (this *Item) Emoves() (items []*Item) {
 	newItems := util.NewStack(8).Push(this)
 	for newItems.Len() > 0 {
+		verifhook.Step(verifhook.SiteLexEmoves)
 		item := newItems.Pop().(*Item)
 
 		if item.Reduce() || item.nextIsTerminal() {
